@@ -123,3 +123,41 @@ def urlSites (input : Bytes) : Res Unit :=
     | none => .ok ()
 
 end GixModel.C06
+
+namespace GixModel.C06
+open GixModel
+
+/-! ### packed-refs lookup: `search_start_of_record` -/
+
+def rfindNl : Bytes → Option Nat
+  | [] => none
+  | b :: bs =>
+    match rfindNl bs with
+    | some i => some (i + 1)
+    | none => if b = 10 then some 0 else none
+
+/-- the closure `search_start_of_record(ofs)` of `Buffer::binary_search_by`, followed by the slice
+`&a[start..]` its result is used for: `a[..ofs]`, `a[..pos]` and `&a[start..]` are the sites -/
+def recordStart (a : Bytes) (ofs : Nat) : Res Nat :=
+  match sliceTo a ofs with                                  -- a[..ofs]
+  | none => .panic
+  | some upTo =>
+    let start : Res Nat :=
+      match rfindNl upTo with
+      | none => .ok 0
+      | some pos =>
+        match a[pos + 1]? with                              -- a.get(candidate)
+        | none => .ok 0
+        | some b =>
+          if b = 94 then
+            match sliceTo a pos with                        -- a[..pos]
+            | none => .panic
+            | some before => .ok ((rfindNl before).map (· + 1) |>.getD 0)
+          else .ok (pos + 1)
+    match start with
+    | .ok s => (match sliceFrom a s with                    -- &a[search_start_of_record(ofs)..]
+        | none => .panic
+        | some _ => .ok s)
+    | r => r
+
+end GixModel.C06
